@@ -286,6 +286,10 @@ def merged_survey(sv, alias, adds):
             c = dict(c)
             c["name"] = "MERGED"
             c["value"] = None
+            # the merged variable keeps its categorical-date nature
+            dates = [x["date"] for x in var["cats"] if x["id"] in adds and "date" in x]
+            if dates:
+                c["date"] = dates[0]
         keep.append(c)
     var["cats"] = keep
     if var["type"] == "cat":
